@@ -22,7 +22,7 @@ import (
 	"verif/harness/xt"
 )
 
-const c01Rule = "rapid-generated histories (6..40 operations) over one provider: sso (valid AuthnRequest accepted through the real SSO endpoint), seed (stored request inserted directly: pending or done, with or without a user attached, bindings POST / Redirect / Artifact / empty, any consumer URL incl. empty, ids that are case / blank / percent-encoding twins of each other), complete (login completion for an existing or unknown user), fault (user-info, signing-key - error / nil / no key / no certificate / empty certificate -, or application lookup failure on the next callback) and callback with id expressions {exact, unknown, empty, upper-case twin, blank-padded, percent-encoded twin, '+' / blank / separator twins, prefix, id of another session} placed in the query, the form body, both, or repeated - or handed to the exported Provider.AuthCallbackResponse the way an application with its own login UI does. Invariant after every callback: a Success Response implies that one of the supplied id values names a stored request that is done, and the NameID / attributes are those of that request's user; any other reply has a non-Success status (or is a plain HTTP error) and its decoded layers contain no user marker, no non-empty NameID, no AttributeValue and no SignatureValue; user info is fetched only for a named, done request. Non-trivial: a callback issued while at least one pending and one done request exist. Distinct by (state of the named ids, id expression, placement, binding, fault)."
+const c01Rule = "rapid-generated histories (6..40 operations) over one provider: sso (valid AuthnRequest accepted through the real SSO endpoint), seed (stored request inserted directly: pending or done, with or without a user attached, bindings POST / Redirect / Artifact / empty, any consumer URL incl. empty, ids that are case / blank / percent-encoding twins of each other), complete (login completion for an existing or unknown user), fault (user-info, signing-key - error / nil / no key / no certificate / empty certificate -, or application lookup failure on the next callback) and callback with id expressions {exact, unknown, empty, upper-case twin, blank-padded, percent-encoded twin, '+' / blank / separator twins, prefix, id of another session} placed in the query, the form body, both, or repeated - or handed to the exported Provider.AuthCallbackResponse the way an application with its own login UI does. Invariant after every callback: a Success Response implies that one of the supplied id values names a stored request that is done, and the NameID / attributes are those of that request's user; any other reply has a non-Success status (or is a plain HTTP error) and its decoded layers contain no user marker, no non-empty NameID, no AttributeValue and no SignatureValue; user info is fetched only for a named, done request. Evaluations count callbacks (the unit the invariant is evaluated on), not histories. Non-trivial: a callback issued while at least one pending and one done request exist. Distinct by (state of the named ids, id expression, placement, binding, fault)."
 
 type C01Op struct {
 	Kind      string             `json:"kind"` // sso | seed | complete | fault | callback
@@ -415,8 +415,9 @@ func TestC01(t *testing.T) {
 		for f := range st.fps {
 			fps = append(fps, f)
 		}
-		col.Bulk(0, fps)
-		col.Case(false, "", []string{"histories"}, nil)
+		// the evaluated unit is the callback (the invariant runs after each); histories are counted as a class
+		col.Bulk(st.callbacks, fps)
+		col.Count("histories", 1)
 		for _, s := range st.sample[:minInt(len(st.sample), 1)] {
 			col.Sample(s)
 		}
